@@ -166,26 +166,30 @@ impl<'a, W: io::Write, E: ModelErr> serde::ser::SerializeMap for TokColl<'a, W, 
 // one-token deserializer: hands exactly one value to the visitor
 // -------------------------------------------------------------------------------------------
 
-/// The "document" a parser hands out for a stream that contains no document at all (serde_yaml does
-/// this for the first item of its iterator): it visits `none`.
-pub const VOID: u8 = 0;
-
 pub struct TokDe<E> {
 	pub tok: u8,
+	/// the "document" a parser hands out for a stream that contains no document at all (serde_yaml does
+	/// this for the first item of its iterator): it visits `none`
+	pub void: bool,
 	_e: PhantomData<E>,
 }
 impl<E> TokDe<E> {
 	pub fn new(tok: u8) -> Self {
-		TokDe { tok, _e: PhantomData }
+		TokDe { tok, void: false, _e: PhantomData }
+	}
+	pub fn void() -> Self {
+		TokDe { tok: 0, void: true, _e: PhantomData }
 	}
 }
 impl<'de, E: ModelErr> serde::Deserializer<'de> for TokDe<E> {
 	type Error = E;
 	fn deserialize_any<V: serde::de::Visitor<'de>>(self, v: V) -> Result<V::Value, E> {
 		unsafe { ghost::DOCS += 1 };
+		if self.void {
+			return v.visit_none();
+		}
 		match self.tok {
 			b'!' => Err(E::syntax()),
-			VOID => v.visit_none(),
 			b'n' => v.visit_unit(),
 			b't' => v.visit_bool(true),
 			t => v.visit_u8(t),
